@@ -131,12 +131,51 @@ func c13NonTrivial(m behMember, merged cfg.Config) bool {
 	return false
 }
 
+// checkMethodSet compares the reflected method set and type name with C13's rule.
+func checkMethodSet(t tb, bc behContext, d *ref.DI, got fx.Res) bool {
+	ownPath := "fx/g/" + bc.Cont.Name
+	_, typ, _ := expectedNames(bc.Merged)
+	exp := expectedMethodSet(d, ownPath)
+	gotM := map[string]string{}
+	for _, m := range got.Methods {
+		gotM[m.Name] = m.Sig
+	}
+	var names []string
+	for n := range exp {
+		names = append(names, n)
+	}
+	for n := range gotM {
+		if _, ok := exp[n]; !ok {
+			names = append(names, n)
+		}
+	}
+	sort.Strings(names)
+	for _, n := range names {
+		e, eok := exp[n]
+		g, gok := gotM[n]
+		switch {
+		case eok && !gok:
+			violation(t, "method-missing", fmt.Sprintf("generated type lacks method %s %s", n, e), bc.One)
+			return false
+		case !eok && gok:
+			violation(t, "method-unexpected", fmt.Sprintf("generated type has unexpected method %s %s", n, g), bc.One)
+			return false
+		case e != g:
+			violation(t, "method-signature", fmt.Sprintf("method %s has signature %s, expected %s", n, g, e), bc.One)
+			return false
+		}
+	}
+	if got.TypeName != typ {
+		violation(t, "type-name", fmt.Sprintf("container type is %s, expected %s", got.TypeName, typ), bc.One)
+		return false
+	}
+	return true
+}
+
 func c13Check(t tb, bc behContext) {
 	col := ev.Get()
 	d := ref.NewDI(bc.Merged, bc.M.Script.Env)
 	b := newBij()
-	ownPath := "fx/g/" + bc.Cont.Name
-	pkg, typ, _ := expectedNames(bc.Merged)
 	mustOf := map[string]bool{}
 	for _, g := range d.Getters() {
 		mustOf[g.Getter] = g.Must
@@ -150,41 +189,9 @@ func c13Check(t tb, bc behContext) {
 		got := res[i]
 		switch op.Op {
 		case "methods":
-			exp := expectedMethodSet(d, ownPath)
-			gotM := map[string]string{}
-			for _, m := range got.Methods {
-				gotM[m.Name] = m.Sig
-			}
-			var names []string
-			for n := range exp {
-				names = append(names, n)
-			}
-			for n := range gotM {
-				if _, ok := exp[n]; !ok {
-					names = append(names, n)
-				}
-			}
-			sort.Strings(names)
-			for _, n := range names {
-				e, eok := exp[n]
-				g, gok := gotM[n]
-				switch {
-				case eok && !gok:
-					violation(t, "method-missing", fmt.Sprintf("generated type lacks method %s %s", n, e), bc.One)
-					return
-				case !eok && gok:
-					violation(t, "method-unexpected", fmt.Sprintf("generated type has unexpected method %s %s", n, g), bc.One)
-					return
-				case e != g:
-					violation(t, "method-signature", fmt.Sprintf("method %s has signature %s, expected %s", n, g, e), bc.One)
-					return
-				}
-			}
-			if got.TypeName != typ {
-				violation(t, "type-name", fmt.Sprintf("container type is %s, expected %s", got.TypeName, typ), bc.One)
+			if !checkMethodSet(t, bc, d, got) {
 				return
 			}
-			_ = pkg
 			col.Label("method-set-matched")
 		case "get":
 			exp := d.Exec(modelOp(op))
